@@ -20,6 +20,20 @@ Definition obs_c1 := option (bool * option (list Q)).
 Definition obs_c2 := option (bool * bool * option (list (list Q))).
 Definition expand {A} (whole : A) (o : option A) : A := match o with Some v => v | None => whole end.
 
+Definition obs_r1 := (list bdescr * list Q)%type.                      (* descr, values *)
+Definition obs_r2 := (list bdescr * list (bdescr * list Q))%type.      (* yDescr, [(xd,row)] *)
+
+(* the observers of one bin description d, evaluated in the language:
+   avail  d.isAvail("min"), ("max"), ("str"), ("nokey"), ("str","min"), ("str","max")
+   get    try d.get("min"), try d.get("max")        (None = error)
+   mem    try d.min, try d.max                      (None = error)
+   cont   "min"~d, "max"~d, "str"~d, "nokey"~d
+   keys   keys of d.list() in order (0 str, 1 min, 2 max, 3 anything else); vals: the values listed for min, max
+   size   d.size();  str: d.string() mentions "min:", "max:"
+   eqs    d = d;  d = a plain map with exactly the entries the specification gives bin i *)
+Inductive dobs := Dobs (avail : list bool) (get mem : option Q * option Q) (cont : list bool)
+                       (keys : list N) (vals : option Q * option Q) (size : N) (str : bool * bool) (eqs : bool * bool).
+
 Inductive c20_case :=
 | C1 (id : N) (start size : Q) (count : N) (xs : list (Q * Q))
      (whole : list bdescr * list Q)                       (* list.binning(start,size,count,e->e.x,e->e.v) *)
@@ -28,10 +42,25 @@ Inductive c20_case :=
      (whole : list bdescr * list (bdescr * list Q))       (* yDescr, [(xd,row)] of list.binning2d(...) *)
      (splits : list (list N * obs_c2))
 | CM (id : N) (parts : list (Q * Q * N * list (Q * Q)))  (* every part binned with its own start,size,count *)
-     (obs : option (list bdescr * list Q)).               (* collectBinning over them: error or descr,values *)
+     (obs : option (list bdescr * list Q))                (* collectBinning over them: error or descr,values *)
+(* histories on the same objects: every part is binned ONCE (snap = what each partial result showed at
+   creation); then several collectBinning calls over selections (with repetition, any order) of these same
+   partial results; after every call the collected result and what every partial result shows NOW
+   (None = still identical to its snapshot) *)
+| H1 (id : N) (start size : Q) (count : N) (parts : list (list (Q * Q)))
+     (snap : list obs_r1)
+     (steps : list (list N * option obs_r1 * list (option obs_r1)))
+| H2 (id : N) (xstart xsize : Q) (xcount : N) (ystart ysize : Q) (ycount : N) (parts : list (list (Q * Q * Q)))
+     (snap : list obs_r2)
+     (steps : list (list N * option obs_r2 * list (option obs_r2)))
+(* all map observers applied to the bin descriptions of one axis (index of the bin, observations) *)
+| CD (id : N) (start size : Q) (count : N) (obs : list (N * dobs)).
 
 Definition c20_id (c : c20_case) : N :=
-  match c with C1 id _ _ _ _ _ _ => id | C2 id _ _ _ _ _ _ _ _ _ => id | CM id _ _ => id end.
+  match c with
+  | C1 id _ _ _ _ _ _ => id | C2 id _ _ _ _ _ _ _ _ _ => id | CM id _ _ => id
+  | H1 id _ _ _ _ _ _ => id | H2 id _ _ _ _ _ _ _ _ _ => id | CD id _ _ _ _ => id
+  end.
 
 Fixpoint split_by {A} (lens : list N) (l : list A) : list (list A) :=
   match lens with
@@ -60,6 +89,98 @@ Definition im_split2 (ax ay : axis) (xs : list (Q * Q * Q)) (wy : list bdescr) (
   | _, _ => false
   end.
 
+(* ---------------- histories and description observers: helpers ---------------- *)
+
+Definition r1_eqb (a b : obs_r1) : bool := descrs_eqb (fst a) (fst b) && leq_b (snd a) (snd b).
+Definition r2_eqb (a b : obs_r2) : bool :=
+  descrs_eqb (fst a) (fst b) && descrs_eqb (xds_of (snd a)) (xds_of (snd b)) && leq2_b (rows_of (snd a)) (rows_of (snd b)).
+
+Fixpoint all2 {A B} (f : A -> B -> bool) (l : list A) (m : list B) : bool :=
+  match l, m with
+  | [], [] => true
+  | x :: l', y :: m' => f x y && all2 f l' m'
+  | _, _ => false
+  end.
+
+Definition select {A} (d : A) (l : list A) (idxs : list N) : list A := map (fun i => nth (N.to_nat i) l d) idxs.
+
+(* model side of a history: partial results are values, nothing can change them; every collect is computed
+   from the binnings of the selected parts *)
+Definition im_hist {E R} (bin : list E -> R) (coll : list R -> cres R) (eqb : R -> R -> bool)
+           (parts : list (list E)) (snap : list R) (steps : list (list N * option R * list (option R))) : bool :=
+  let m := map bin parts in
+  all2 eqb m snap &&
+  forallb (fun st => match st with
+     | (idxs, o, re) =>
+         match coll (select (bin []) m idxs), o with
+         | COk r, Some r' => eqb r r'
+         | CErr, None => true
+         | _, _ => false
+         end
+         && Nat.eqb (length re) (length snap)
+         && all2 (fun mi sr => eqb mi (expand (fst sr) (snd sr))) m (combine snap re)
+     end) steps.
+
+(* specification side of a history: every collected result is the binning of the concatenation of the
+   selected parts, and every partial result still is (after every step) the binning of its own part *)
+Definition is_hist {E R} (sp : list E -> R) (eqb : R -> R -> bool)
+           (parts : list (list E)) (snap : list R) (steps : list (list N * option R * list (option R))) : bool :=
+  all2 eqb snap (map sp parts) &&
+  forallb (fun st => match st with
+     | (idxs, o, re) =>
+         match o with Some r => eqb r (sp (concat (select [] parts idxs))) | None => false end
+         && Nat.eqb (length re) (length snap)
+         && all2 (fun p sr => eqb (expand (fst sr) (snd sr)) (sp p)) parts (combine snap re)
+     end) steps.
+
+Definition spec_r1 (a : axis) (xs : list (Q * Q)) : obs_r1 :=
+  (map (spec_descr a) (zrange (Z.to_nat (a_bins a))), spec_values a xs).
+Definition spec_r2 (ax ay : axis) (xs : list (Q * Q * Q)) : obs_r2 :=
+  (map (spec_descr ay) (zrange (Z.to_nat (a_bins ay))),
+   combine (map (spec_descr ax) (zrange (Z.to_nat (a_bins ax)))) (spec_values2 ax ay xs)).
+
+Definition oq_of (v : option bval) : option Q := match v with Some (BNum q) => Some q | _ => None end.
+Definition is_some {A} (o : option A) : bool := match o with Some _ => true | None => false end.
+Definition key_code (k : bkey) : N := match k with KStr => 0 | KMin => 1 | KMax => 2 | KOther => 3 end.
+
+(* what the observers yield on the bin record, computed as the Go code computes them *)
+Definition obs_of_bin (b : bin) (spec : list (bkey * bval)) : dobs :=
+  Dobs [map_is_avail b [KMin]; map_is_avail b [KMax]; map_is_avail b [KStr]; map_is_avail b [KOther];
+        map_is_avail b [KStr; KMin]; map_is_avail b [KStr; KMax]]
+       (oq_of (map_get b KMin), oq_of (map_get b KMax))
+       (oq_of (map_get b KMin), oq_of (map_get b KMax))
+       [map_contains b KMin; map_contains b KMax; map_contains b KStr; map_contains b KOther]
+       (map (fun kv => key_code (fst kv)) (bin_iter b))
+       (oq_of (kv_get (bin_iter b) KMin), oq_of (kv_get (bin_iter b) KMax))
+       (bin_size b)
+       (is_some (kv_get (bin_iter b) KMin), is_some (kv_get (bin_iter b) KMax))
+       (bin_equals_self b, bin_equals_kv b spec).
+
+(* what they must yield on a map with exactly the entries the specification gives the bin *)
+Definition obs_of_kv (l : list (bkey * bval)) : dobs :=
+  let has k := is_some (kv_get l k) in
+  Dobs [has KMin; has KMax; has KStr; has KOther; has KStr && has KMin; has KStr && has KMax]
+       (oq_of (kv_get l KMin), oq_of (kv_get l KMax))
+       (oq_of (kv_get l KMin), oq_of (kv_get l KMax))
+       [has KMin; has KMax; has KStr; has KOther]
+       (map (fun kv => key_code (fst kv)) l)
+       (oq_of (kv_get l KMin), oq_of (kv_get l KMax))
+       (N.of_nat (length l))
+       (has KMin, has KMax)
+       (true, true).
+
+Definition bools_eqb (a b : list bool) : bool := all2 Bool.eqb a b.
+Definition ns_eqb (a b : list N) : bool := all2 N.eqb a b.
+Definition oq2_eqb (a b : option Q * option Q) : bool := oq_eqb (fst a) (fst b) && oq_eqb (snd a) (snd b).
+Definition b2_eqb (a b : bool * bool) : bool := Bool.eqb (fst a) (fst b) && Bool.eqb (snd a) (snd b).
+
+Definition dobs_eqb (x y : dobs) : bool :=
+  match x, y with
+  | Dobs a1 g1 m1 c1 k1 v1 s1 t1 e1, Dobs a2 g2 m2 c2 k2 v2 s2 t2 e2 =>
+      bools_eqb a1 a2 && oq2_eqb g1 g2 && oq2_eqb m1 m2 && bools_eqb c1 c2 && ns_eqb k1 k2 && oq2_eqb v1 v2
+      && N.eqb s1 s2 && b2_eqb t1 t2 && b2_eqb e1 e2
+  end.
+
 Definition c20_im (c : c20_case) : bool :=
   match c with
   | C1 _ start size count xs (od, ov) splits =>
@@ -78,6 +199,16 @@ Definition c20_im (c : c20_case) : bool :=
       | CErr, None => true
       | _, _ => false
       end
+  | H1 _ start size count parts snap steps =>
+      let a := new_axis start size count in
+      im_hist (binning a) collect1 r1_eqb parts snap steps
+  | H2 _ xs0 xz xc ys0 yz yc parts snap steps =>
+      let ax := new_axis xs0 xz xc in
+      let ay := new_axis ys0 yz yc in
+      im_hist (binning_2d ax ay) collect2 r2_eqb parts snap steps
+  | CD _ start size count obs =>
+      let a := new_axis start size count in
+      forallb (fun io => dobs_eqb (obs_of_bin (get_bin a (Z.of_N (fst io))) (spec_kv a (Z.of_N (fst io)))) (snd io)) obs
   end.
 
 (* ---------------- implementation satisfies the specification side ---------------- *)
@@ -121,4 +252,14 @@ Definition c20_is (c : c20_case) : bool :=
             && forallb (fun e => one_bin (xds_of ovals) (fst (fst e)) && one_bin oyd (snd (fst e))) xs
           else true)
   | CM _ _ _ => true      (* parts binned on different grids: outside the property, correspondence only *)
+  | H1 _ start size count parts snap steps =>
+      let a := new_axis start size count in
+      if Qpos_b size then is_hist (spec_r1 a) r1_eqb parts snap steps else true
+  | H2 _ xs0 xz xc ys0 yz yc parts snap steps =>
+      let ax := new_axis xs0 xz xc in
+      let ay := new_axis ys0 yz yc in
+      if Qpos_b xz && Qpos_b yz then is_hist (spec_r2 ax ay) r2_eqb parts snap steps else true
+  | CD _ start size count obs =>
+      let a := new_axis start size count in
+      if Qpos_b size then forallb (fun io => dobs_eqb (obs_of_kv (spec_kv a (Z.of_N (fst io)))) (snd io)) obs else true
   end.
